@@ -393,19 +393,21 @@ func c11Scenarios(tier string) []Spec {
 		maxF = 2
 		loaders = []string{"fetchall", "multihash", "entryhash", "json", "entry"}
 	}
-	// (0) two loads side by side, one late block (bounded preemptions: two loads have many threads)
+	// (0) two loads side by side, one late block; explored last (10^4..10^6 executions per scenario: what the budget
+	// does not reach is reported as not started, and the single-load scenarios are not starved)
+	var twoLoads []Spec
 	{
 		tl := []string{"chain3"}
 		lds := []string{"fetchall"}
 		if tier == "thorough" {
-			tl = []string{"chain3", "fork", "diamond"}
+			tl = []string{"chain3", "fork"}
 			lds = []string{"fetchall", "multihash"}
 		}
 		for _, sh := range tl {
 			n := len(getStoredLen(sh))
 			for _, ld := range lds {
 				for _, c := range concs {
-					if c > 1 && (tier != "thorough" || sh != "chain3") {
+					if c > 2 || c > 1 && (tier != "thorough" || sh != "chain3" || ld != "fetchall") {
 						continue // two loads with two workers each: 10^5..10^6 executions per scenario
 					}
 					for late := 0; late < n; late++ {
@@ -413,7 +415,7 @@ func c11Scenarios(tier string) []Spec {
 							if both && tier != "thorough" && late != 1 {
 								continue
 							}
-							specs = append(specs, Spec{HBCache: true, Shards: 1, NoRace: true, Sc: makeTwoLoads(sh, ld, c, late, both)})
+							twoLoads = append(twoLoads, Spec{HBCache: true, Shards: 2, NoRace: true, Sc: makeTwoLoads(sh, ld, c, late, both)})
 						}
 					}
 				}
@@ -505,6 +507,7 @@ func c11Scenarios(tier string) []Spec {
 		}
 	}
 	specs = append(specs, Spec{Name: "C11/all-assignments/default-schedule", Batch: batch, Shards: 16, NoRace: true})
+	specs = append(specs, twoLoads...)
 	return specs
 }
 
